@@ -38,8 +38,8 @@ ASSUMPTIONS = [
 NSHARDS = {'quick': 16, 'thorough': 16}
 
 SHAPES = ['one', 'multi_ps1', 'multi_ps2', 'def', 'deco', 'try', 'ifelse', 'mlstr_bare', 'mlstr_dots', 'old',
-          'comment', 'directive', 'semi', 'backslash', 'nested3', 'strprompt', 'mlstr_ps1']
-WANTS = ['num', 'repr', 'words', 'traceback', 'blankline', 'dots_inside', 'bare_ellipsis', 'indented', 'taglike']
+          'comment', 'directive', 'semi', 'backslash', 'nested3', 'strprompt', 'mlstr_ps1', 'bs_comment', 'bs_string']
+WANTS = ['num', 'repr', 'words', 'traceback', 'blankline', 'dots_inside', 'bare_ellipsis', 'indented', 'taglike', 'padded']
 TRANSITIONS = ['text>text', 'text>src', 'src>src', 'src>want', 'src>text', 'want>want', 'want>text', 'want>src']
 
 
@@ -81,6 +81,11 @@ def stmt_lines(rng, shape, i):
         return ['>>> a = %d; print(a)' % i]
     if shape == 'backslash':
         return ['>>> z = 1 + \\', '...     %d' % i]
+    if shape == 'bs_comment':
+        # a complete statement whose trailing comment ends in a backslash
+        return ['>>> print(%d)  # i.e. C:\\data\\' % i]
+    if shape == 'bs_string':
+        return ['>>> p%d = "C:\\\\"  # ' % i + 'a string that ends in a backslash']
     if shape == 'nested3':
         return ['>>> d = {', "...     'k': [%d," % i, '...           2]}']
     if shape == 'strprompt':
@@ -107,6 +112,8 @@ def want_lines(rng, kind, i, prev_src_line):
         return ['%d' % i]
     if kind == 'indented':
         return ['  indented %d' % i, '    more']
+    if kind == 'padded':
+        return ['ab %d    ' % i, '| a  ']
     if kind == 'taglike':
         return ['Returns: %d' % i]
     raise KeyError(kind)
